@@ -74,17 +74,21 @@ impl Property for C06 {
         if rng.chance(1, 6) {
             ops.push(BOp::SetVersion(*rng.pick(&[1u8, 1, 0, 3]), rng.below(7) as u8));
         }
+        let mut switch64 = false;
         if rng.chance(1, 500) {
             // scale: the largest encodable instruction / strings around 65535 bytes / 65536+ typed ids
             let op = match rng.below(3) {
                 0 => BOp::Scale(0, *rng.pick(&[65_530u32, 65_531, 65_532, 65_535, 65_536, 70_000, 262_000])),
                 1 => BOp::Scale(1, *rng.pick(&[65_531u32, 65_532, 65_533])),
-                _ => BOp::Scale(2, *rng.pick(&[65_533u32, 65_534, 65_535, 65_536, 65_540, 70_000])),
+                _ => {
+                    switch64 = true;
+                    BOp::Scale(2, *rng.pick(&[300u32, 4_100, 16_390, 20_000, 65_533, 65_534, 65_535, 65_536, 65_540, 70_000]))
+                }
             };
             ops.push(op);
         }
-        let nfuncs = rng.below(4);
-        for _ in 0..nfuncs {
+        let nfuncs = if switch64 { rng.range(2, 3) } else { rng.below(4) };
+        for fi in 0..nfuncs {
             ops.push(BOp::BeginFunction { explicit_id: rng.chance(1, 3), control: rng.below(16) as u32 });
             for _ in 0..rng.below(4) {
                 ops.push(BOp::Parameter);
@@ -112,9 +116,14 @@ impl Property for C06 {
                     }
                 }
                 // a terminator ends the block: insert_ forms only at the end
-                let t = match gen_call(rng, MClass::Terminator) {
-                    Some(BOp::Call { method, arg_seed, explicit_rid, .. }) => BOp::Call { method, arg_seed, explicit_rid, ip_kind: 0, ip_k: 0 },
-                    _ => BOp::Id,
+                // (scale lane: the later functions switch on the 64-bit constant declared behind tens of thousands of ids)
+                let t = if switch64 && fi > 0 && rng.chance(1, 2) {
+                    BOp::Call { method: "switch".into(), arg_seed: rng.next() / 3 * 3, explicit_rid: false, ip_kind: 0, ip_k: 0 }
+                } else {
+                    match gen_call(rng, MClass::Terminator) {
+                        Some(BOp::Call { method, arg_seed, explicit_rid, .. }) => BOp::Call { method, arg_seed, explicit_rid, ip_kind: 0, ip_k: 0 },
+                        _ => BOp::Id,
+                    }
                 };
                 ops.push(t);
             }
@@ -170,6 +179,9 @@ impl Property for C06 {
                 continue;
             }
             let Some(want) = &rep.intended else { continue };
+            if want.is("Switch") && want.ops.iter().any(|o| matches!(o, MOp::L64(_))) {
+                cov.hit("reached.switch_on_a_64bit_selector");
+            }
             let mname = rep.binding.as_ref().map(|b| b.name).unwrap_or(match rep.kind {
                 CallKind::BeginFunction => "begin_function",
                 CallKind::Parameter => "function_parameter",
